@@ -3,7 +3,8 @@
 proof:  lean/DoraModel/Props/C11.lean over the model lean/DoraModel/Match/Model.lean
         (function-by-function transcription of dora-frontend/src/exhaustiveness.rs incl. convert_pattern)
 tie:    hand model + correspondence: h_c11 (real front end, in-process) vs drv_c11 (Lean model) on the same
-        S-expression requests (type declarations + one match); verdict, witness text, useless (sub-)patterns
+        S-expression requests (type declarations + one match); verdict, witness text, useless (sub-)patterns;
+        the driver answers `!illtyped` when an arm's pattern fails `spatWT` (hypothesis of accepted_no_fallthrough)
 oracle: the driver also evaluates the SURFACE semantics (smatch / firstMatch, `..` skips to the end) by brute
         force over all values (literal types: the literals that occur + one fresh); the real front end's
         answers are checked against that: accepted => every value matched by an unguarded arm; rejected =>
@@ -11,6 +12,14 @@ oracle: the driver also evaluates the SURFACE semantics (smatch / firstMatch, `.
 run-time half: accepted matches over finite scrutinee types are compiled (dora compile --cannon) into one
         program that evaluates every match on every value (and every combination of guard outcomes); the
         arm taken must be the model's firstMatch.
+literal leg: `h_c11 genlit` writes matches over Int64 / Int32 / UInt8 / Char / String scrutinees with literal arms
+        (`(lm L (arms) (selector values))`: dense literal sets = jump table, sparse = binary search, smallest literal
+        0 / non-zero / negative / the type's minimum, largest = the maximum, duplicates, guards, alternatives, consts,
+        hex / binary / underscore spellings, `_` or binding default). They go through the same verdict comparison, and
+        the accepted ones are compiled with BOTH code generators; the selector values (every literal, neighbours of
+        the range, the type's extremes, 0, -1, values congruent to a literal modulo 2^8/2^16/2^31/2^32) come out of an
+        array at run time. Arm taken = the model's firstMatch (`firstMatch_least`); keys
+        `oracle:runtime-arm:lit:<type>:<back end>`, `oracle:runtime-trap:lit:<type>:<back end>`.
 """
 import concurrent.futures
 import json
@@ -62,7 +71,7 @@ def shape(req):
         t = parse(req)
     except Exception:
         return dict(bad=True)
-    arms = t[3]
+    arms = t[2] if t[0] == "lm" else t[3]
     feats = dict(rows=len(arms), guard=False, alt=False, nested=False, rest_ctor_not_last=False,
                  rest_ctor_last=False, rest_tuple=False, named=False, lit=False, binder=False, depth=0)
 
@@ -75,7 +84,7 @@ def shape(req):
             feats["alt"] = True
             for x in p[1:]:
                 pat(x, d)
-        elif h in ("i", "c", "s"):
+        elif h in ("i", "c", "s") or (h == "k" and len(p) == 2 and p[1].lstrip("-").isdigit()):
             feats["lit"] = True
         elif h == "v":
             feats["binder"] = True
@@ -100,7 +109,34 @@ def shape(req):
         if a[0] == "g":
             feats["guard"] = True
         pat(a[1], 0)
+    if t[0] == "lm":
+        feats["lm"] = True
+        feats["lty"] = t[1]
+        feats.update(lit_lowering(t))
     return feats
+
+
+def lit_lowering(t):
+    """which lowering int_dispatch.rs chooses for an `lm` request (for the histogram and the finding text only)"""
+    vals, binder = set(), False
+
+    def pat(p):
+        nonlocal binder
+        if isinstance(p, list) and p:
+            if p[0] in ("i", "k"):
+                vals.add(int(p[1]))
+            elif p[0] == "v":
+                binder = True
+            elif p[0] == "|":
+                for x in p[1:]:
+                    pat(x)
+    for a in t[2]:
+        pat(a[1])
+    if t[1] not in ("Int64", "Int32", "UInt8") or binder:
+        return dict(lowering="chain")          # generic test-and-branch chain (gen_int_match returns None for a binder)
+    if len(vals) >= 3 and max(vals) - min(vals) + 1 <= 128:
+        return dict(lowering="table")
+    return dict(lowering="bsearch")
 
 
 def nontrivial(f):
@@ -239,6 +275,7 @@ def process(ctx, hbin, drv, reqs, label, stats, tc_holder):
             stats["okeys"][key] = stats["okeys"].get(key, 0) + 1
         elif il.startswith("exhaustive") and rt != "-" and truth and truth[0] == "exhaustive":
             rt_candidates.append((req, rt))
+            stats["rt_order"].setdefault(req, len(stats["rt_order"]))
     stats["rt_candidates"] += rt_candidates
 
 
@@ -263,9 +300,9 @@ def oracle(il, truth):
 
 # --------------------------------------------------------------------------- run-time half
 
-def compile_and_run(tc, hbin, reqs, name):
-    """h_c11 prog -> dora compile --cannon -> run. Returns (rc, stdout, log)."""
-    d = os.path.join(TMP, "c11_rt_%d_%s" % (os.getpid(), name))
+def compile_and_run(tc, hbin, reqs, name, backend="cannon"):
+    """h_c11 prog -> dora compile [--cannon] -> run. Returns (rc, stdout, log)."""
+    d = os.path.join(TMP, "c11_rt_%d_%s_%s" % (os.getpid(), name, backend))
     shutil.rmtree(d, ignore_errors=True)
     os.makedirs(d)
     rf = os.path.join(d, "r.req")
@@ -275,7 +312,8 @@ def compile_and_run(tc, hbin, reqs, name):
         return None, "", "h_c11 prog failed: " + err[-1000:]
     sp = os.path.join(d, "p.dora")
     open(sp, "w").write(src)
-    rc, out = C.sh([tc["dora"], "compile", "--cannon", sp, "-o", os.path.join(d, "p")], cwd=d, timeout=900)
+    rc, out = C.sh([tc["dora"], "compile"] + (["--cannon"] if backend == "cannon" else []) + [sp, "-o", os.path.join(d, "p")],
+                   cwd=d, timeout=1800)
     if rc != 0 or not os.path.exists(os.path.join(d, "p")):
         return None, "", "dora compile failed (rc=%s): %s" % (rc, "\n".join(
             l for l in out.splitlines() if "warning" not in l and "ld:" not in l)[-1500:])
@@ -284,7 +322,139 @@ def compile_and_run(tc, hbin, reqs, name):
     return rc, out, err
 
 
+def parse_rt_output(out):
+    got = {}
+    for line in out.splitlines():
+        p = line.split(" ")
+        if len(p) >= 2 and p[0].isdigit() and p[1].isdigit():
+            got.setdefault(int(p[0]), {})[int(p[1])] = p[2:]
+    return got
+
+
+def runtime_lit_start(ctx, hbin, stats, cands, ex):
+    """literal leg: accepted `lm` matches, compiled with both code generators, arm per selector value = firstMatch.
+    Submits the compile-and-run jobs to `ex`; `runtime_lit_finish` compares the outputs."""
+    rt = stats["rt_lit"] = dict(programs=0, matches=0, evaluations=0, mismatches=0, traps=0, by_type={}, by_lowering={},
+                                backends=[])
+    if not cands:
+        return None
+    try:
+        tc = C.toolchain(need_boots=True)
+        backends = ["cannon", "boots"]
+    except RuntimeError as e:
+        ctx.notes.append("literal leg: optimizing code generator does not bootstrap, baseline only: %s" % str(e)[-300:])
+        try:
+            tc = C.toolchain(need_boots=False)
+        except RuntimeError as e2:
+            ctx.notes.append("literal leg skipped: tool chain does not build: %s" % str(e2)[-300:])
+            return None
+        backends = ["cannon"]
+    rt["backends"] = backends
+    for req, _ in cands:
+        f = shape(req)
+        rt["by_type"][f.get("lty")] = rt["by_type"].get(f.get("lty"), 0) + 1
+        rt["by_lowering"][f.get("lowering")] = rt["by_lowering"].get(f.get("lowering"), 0) + 1
+    step = 40
+    jobs = [(b, be) for b in range(0, len(cands), step) for be in backends]
+
+    def one(job):
+        b, be = job
+        batch = list(cands[b:b + step])
+        results = []            # (batch, rc, out, log) per attempt; after a trap the rest of the batch is run again
+        for attempt in range(4):
+            rc, out, log = compile_and_run(tc, hbin, [c[0] for c in batch], "lit%d_%d" % (b, attempt), be)
+            results.append((batch, rc, out, log))
+            if rc is None or rc == 0:
+                break
+            got = parse_rt_output(out)
+            # first match whose output is incomplete = the one that trapped; continue behind it
+            k = 0
+            while k < len(batch) and all(
+                    len(got.get(k, {}).get(c, [])) == len(e.split(" "))
+                    for c, e in enumerate(batch[k][1].split("|"))):
+                k += 1
+            batch = batch[k + 1:]
+            if not batch:
+                break
+        return job, results
+
+    return [ex.submit(one, j) for j in jobs]
+
+
+def runtime_lit_finish(ctx, stats, futures):
+    rt = stats["rt_lit"]
+    if not futures:
+        return
+    done = [f.result() for f in futures]
+    seen_match = set()
+    for (b, be), results in done:
+        for batch, rc, out, log in results:
+            rt["programs"] += 1
+            if rc is None:
+                ctx.finding("corr:rt-build:lit:" + be, dict(kind="correspondence", log=log, backend=be,
+                                                            requests=[c[0] for c in batch][:5]),
+                            "literal-leg program does not build (%s): %s" % (be, log[:300]), no_input=True)
+                continue
+            got = parse_rt_output(out)
+            trapped = False
+            for k, (req, rtexp) in enumerate(batch):
+                if trapped:
+                    break           # the rest of this batch was run again in the next attempt
+                t = parse(req)
+                sel = t[3]
+                if (req, be) not in seen_match:
+                    seen_match.add((req, be))
+                    rt["matches"] += 1
+                for c, e in enumerate(rtexp.split("|")):
+                    e = e.split(" ")
+                    g = got.get(k, {}).get(c)
+                    rt["evaluations"] += len(e)
+                    if g == e:
+                        continue
+                    f = shape(req)
+                    g = g or []
+                    j = next((j for j in range(len(e)) if j >= len(g) or g[j] != e[j]), len(e))
+                    val = sel[j] if j < len(sel) else "?"
+                    common = dict(kind="oracle", request=req, backend=be, guard_mask_index=c, selector_values=sel,
+                                  expected_arms=e, observed=g, first_difference=dict(selector=val, expected=e[j] if j < len(e) else None,
+                                                                                     observed=g[j] if j < len(g) else None),
+                                  lowering=f.get("lowering"), exit_status=rc, how_to_replay="./check C11 --replay <this file>")
+                    stats["oracle_failures"] += 1
+                    if j >= len(g) and rc != 0:
+                        # the program stopped inside this match: a trap where the language prescribes an arm
+                        rt["traps"] += 1
+                        trapped = True
+                        ctx.finding("oracle:runtime-trap:lit:%s:%s" % (f.get("lty"), be), common,
+                                    "compiled literal match (%s, %s lowering) ends the program with exit status %s at selector value %s "
+                                    "(guard mask #%d) where firstMatch selects arm %s: %s"
+                                    % (be, f.get("lowering"), rc, val, c, e[j] if j < len(e) else "?", req[:220]))
+                    else:
+                        rt["mismatches"] += 1
+                        ctx.finding("oracle:runtime-arm:lit:%s:%s" % (f.get("lty"), be), common,
+                                    "compiled literal match (%s, %s lowering) takes arm %s for selector value %s (guard mask #%d), "
+                                    "firstMatch selects arm %s: %s"
+                                    % (be, f.get("lowering"), g[j] if j < len(g) else "none", val, c,
+                                       e[j] if j < len(e) else "?", req[:220]))
+                    break
+
+
 def runtime_half(ctx, hbin, stats):
+    lit_cands = sorted(set(c for c in stats["rt_candidates"] if c[0].startswith("(lm ")),
+                       key=lambda c: stats["rt_order"].get(c[0], 0))
+    stats["rt_candidates"] = [c for c in stats["rt_candidates"] if not c[0].startswith("(lm ")]
+    import time
+    t0 = time.time()
+    # the two legs share one pool: the literal programs compile while the finite leg runs
+    with concurrent.futures.ThreadPoolExecutor(max_workers=6) as ex:
+        futures = runtime_lit_start(ctx, hbin, stats, lit_cands, ex)
+        runtime_finite(ctx, hbin, stats, ex)
+        t1 = time.time()
+        runtime_lit_finish(ctx, stats, futures)
+    stats["rt_lit"]["wall_s_after_finite_leg"] = round(time.time() - t1, 1)
+    stats["rt_lit"]["wall_s_both_legs"] = round(time.time() - t0, 1)
+
+
+def runtime_finite(ctx, hbin, stats, ex):
     cands = stats["rt_candidates"]
     limit = 60 if ctx.tier == "quick" else 1500
     # prefer non-trivial shapes, keep order deterministic
@@ -320,9 +490,9 @@ def runtime_half(ctx, hbin, stats):
     if not cands:
         return
     step = 30
-    for b in range(0, len(cands), step):
-        batch = cands[b:b + step]
-        rc, out, log = compile_and_run(tc, hbin, [c[0] for c in batch], "b%d" % b)
+    batches = [cands[b:b + step] for b in range(0, len(cands), step)]
+    outs = list(ex.map(lambda ib: compile_and_run(tc, hbin, [c[0] for c in ib[1]], "b%d" % ib[0]), enumerate(batches)))
+    for batch, (rc, out, log) in zip(batches, outs):
         stats["rt"]["programs"] += 1
         if rc is None:
             ctx.finding("corr:rt-build", dict(kind="correspondence", log=log, requests=[c[0] for c in batch][:5]),
@@ -363,7 +533,7 @@ def run(ctx):
     if drv is None:
         raise RuntimeError("driver build failed:\n" + dlog[-3000:])
     stats = dict(evaluations=0, distinct=set(), samples=[], hist={}, disagreements=0, oracle_failures=0,
-                 min={}, okeys={}, rt_candidates=[], confirm={}, rt={})
+                 min={}, okeys={}, rt_candidates=[], confirm={}, rt={}, rt_lit={}, rt_order={})
     if hbin:
         if ctx.replay:
             r = json.load(open(ctx.replay))
@@ -382,6 +552,14 @@ def run(ctx):
                 ctx.finding("corr:gen", dict(kind="correspondence", stderr=err[-2000:]),
                             "h_c11 gen failed", no_input=True)
             process(ctx, hbin, drv, reqs, "gen", stats, None)
+            # literal scrutinees (run-time leg for Int64 / Int32 / UInt8 / Char / String matches)
+            nlit = 80 if ctx.tier == "quick" else 2500
+            rc, gen, err = C.sh2([hbin, "genlit", str(nlit)], env={"VERIF_SEED": str(ctx.seed)}, timeout=600)
+            lreqs = [l for l in gen.splitlines() if l]
+            if rc != 0 or not lreqs:
+                ctx.finding("corr:genlit", dict(kind="correspondence", stderr=err[-2000:]),
+                            "h_c11 genlit failed", no_input=True)
+            process(ctx, hbin, drv, lreqs, "lit", stats, None)
         import time
         t_rt = time.time()
         runtime_half(ctx, hbin, stats)
@@ -408,24 +586,34 @@ def run(ctx):
                    "hand-written model DoraModel/Match/Model.lean (transcription of exhaustiveness.rs) tied by the correspondence run below",
                    "harness h_c11 (renders requests to Dora source, runs dora_frontend::check_program in-process), driver drv_c11, checks/c11.py",
                    "identifier resolution, stored field indices and constant values are inputs of the model (taken from the request), not modelled",
-                   "run-time half: dora compile --cannon, gcc link, the runtime"],
+                   "run-time half: dora compile --cannon (finite leg) / both code generators (literal leg), gcc link, the runtime"],
                theorems=po["theorems"],
                evaluations=stats["evaluations"], distinct_nontrivial=len(stats["distinct"]),
                rule="requests from `h_c11 gen` (seeded): systematic part = all 1-/2-row and strided 3-row matrices over a "
                     "pattern pool per scrutinee type (Bool, 2/3-variant enums, Option-like, payload enums, named-field "
                     "variants, pairs/triples, structs, classes, nested Option) incl. `..` in every position; random part "
                     "= up to 6 arms, depth <= 3, literals Int/Char/String, guards, alternatives, named fields permuted; "
+                    "literal part (`h_c11 genlit`, requests `lm`) = matches over Int64/Int32/UInt8/Char/String with literal "
+                    "arms (dense and sparse literal sets at 0 / non-zero / negative / the type's minimum and maximum, duplicates, "
+                    "guards, alternatives, consts, hex/binary/underscore spellings, `_` or binding default) with selector values; "
                     "non-trivial = the matrix has an alternative, a nested constructor/tuple pattern or a guard",
                histogram=stats["hist"], samples=stats["samples"] or [dict(note="no sample")],
                disagreements=stats["disagreements"], oracle_failures=stats["oracle_failures"],
-               oracle_keys=stats["okeys"], runtime=stats["rt"],
+               oracle_keys=stats["okeys"], runtime=stats["rt"], runtime_literal=stats["rt_lit"],
                minimized={k: v[0] for k, v in stats["min"].items() if isinstance(v, tuple)})
     if ctx.replay:
         return          # a replay does not overwrite the evidence of the last full run
     ctx.write_evidence("proof", cov, assumptions=[
-        "the model's recursion carries a fuel argument; the theorems speak about runs that return (`.ok`): termination of "
-        "the transcribed recursion and absence of panics on well-typed matrices are not proved (the driver never ran out "
-        "of fuel on any request of this run)",
+        "the model's recursion carries a fuel argument. For check_useful and check_exhaustive termination (a computable "
+        "fuel bound) and panic freedom on well-typed input are theorems (useful_decided, exhaustive_decided). For "
+        "check_useful_expand_inner no fuel bound is proved and its assert!(spans.insert(span)) is not excluded "
+        "(arm_check_no_other_panic_partial excludes all other sites); the driver answers !fuel / !panic if that ever "
+        "happens (it did not on any request of this run)",
+        "accepted_no_fallthrough / convert_pattern_correct assume every arm's pattern satisfies the decidable predicate "
+        "spatWT (what typeck/pattern.rs accepts); the driver evaluates spatWT on every request and answers !illtyped if it "
+        "fails, so a match the real type checker accepts outside spatWT is reported as corr:failure",
+        "the literal leg compares the arm the compiled code takes with firstMatch only on the listed selector values "
+        "(literals, range neighbours, type extremes, 0, -1, values congruent to a literal mod 2^8/2^16/2^31/2^32)",
         "Int/Char/String literal types are infinite in the model (Char has 1 112 064 values in Dora); Float patterns excluded",
         "hypotheses of the theorems: matrix well-typed for its column types, every type inhabited",
         "the model is hand-written; agreement with exhaustiveness.rs is checked on the generated requests only"])
